@@ -742,7 +742,8 @@ def run(chk):
 
     rule_total(chk, fm)
     rule_paren(chk, fm, px)
-    rule_contexts(chk, fm, px)
+    rule_contexts(chk, fm, px, lx)
+    rule_stmt_roundtrip(chk)
     rule_optext(chk, fm, px, lx)
     rule_adj(chk, fm, px, lx)
     rule_literals(chk, fm)
@@ -865,42 +866,63 @@ CONTEXTS = {
 }
 
 
-def terminator_exclusions(px):
-    """Terminator variant -> operators the parser does not read while that terminator is in force (arms of the level
-    functions guarded by `st.terminator != Terminator::V`). None when a guard mentions the terminator in another form."""
-    excl = {}
-    for b in px.facts.crates[PAR]["bodies"]:
-        if "thir" not in b:
+def terminator_exclusions(px, fm, lx):
+    """Terminator variant -> operators the parser does not read while that terminator is in force. Every operator
+    parser of the level chain (functions of rssl_parser that take the tokens and the symbol table and return a BinOp)
+    is evaluated by the reader on the lexed spelling of every binary operator, once per Terminator variant; an operator
+    read under Terminator::Standard but not under V is switched off by V. None when that is not readable."""
+    f = px.facts
+    terms = f.variants("Terminator", PAR)
+    if not terms or "Standard" not in terms:
+        return None
+    parsers = [b for b in f.crates[PAR]["bodies"] if b["kind"] == "Fn" and "BinOp)" in b.get("ret", "") and len(b.get("params") or []) in (1, 2)
+               and any(b["path"].startswith(lv + "::") for lv in px.chain)]
+    if not parsers:
+        return None
+    ip = I.Interp(f, max_depth=5)
+
+    def tok(k, fb):
+        return I.Enum("LexToken", None, {"0": I.Enum("Token", k, {} if fb is None else {"0": I.Enum("FollowedBy", fb)}), "1": I.Opaque("location")})
+    excl = {t: set() for t in terms}
+    seen = set()
+    for kd in fm.kinds:
+        if kd[0] != "BinaryOperation":
             continue
-        for m in F.exprs(b["thir"], "Match"):
-            for arm in m.get("arms", []):
-                g = arm.get("guard")
-                if not g:
-                    continue
-                ctors = [F.adt_ctor(x) for x in F.walk(g) if isinstance(x, dict) and x.get("k") == "Adt"]
-                vs = [c[1] for c in ctors if c and c[0] == "Terminator"]
-                if not vs:
-                    continue
-                nes = [c for c in F.exprs(g, "Call") if short(c.get("fn") or "") == "ne" and any((F.adt_ctor(F.strip(a)) or ("",))[0] == "Terminator" for a in c.get("args", []))]
-                nes += [x for x in F.exprs(g, "Binary") if x.get("op") == "Ne" and any((F.adt_ctor(F.strip(a)) or ("",))[0] == "Terminator" for a in (x.get("l"), x.get("r")) if a)]
-                if len(nes) != len(vs):
+        text = fm.bin_text.get(kd[1]) if hasattr(fm, "bin_text") else None
+        lt = lx.lex((text or "") + " ") if text else None
+        if not lt:
+            continue
+        toks = [tok(k, fb) for k, fb in lt] + [tok("Id", None)]
+        for b in parsers:
+            res = {}
+            for t in terms:
+                try:
+                    r = ip.apply(b, [list(toks), I.Enum("SymbolTable", None, {"terminator": I.Enum("Terminator", t)})][:len(b["params"])])
+                except I.Unknown:
                     return None
-                ops = [c for c in (F.adt_ctor(x) for x in F.walk(arm["body"]) if isinstance(x, dict) and x.get("k") == "Adt") if c and c[0] == "BinOp"]
-                for v in vs:
-                    for o in ops:
-                        excl.setdefault(v, set()).add(o[1])
+                ok = isinstance(r, I.Enum) and r.variant == "Ok"
+                res[t] = r.fields["0"][1].variant if ok and isinstance(r.fields["0"], tuple) and isinstance(r.fields["0"][1], I.Enum) else None
+            std = res.get("Standard")
+            if std is None:
+                continue
+            seen.add(std)
+            for t in terms:
+                if res[t] != std:
+                    excl[t].add(std)
+    if len(seen) < 15:
+        return None
     return excl
 
 
-def rule_contexts(chk, fm, px):
+def rule_contexts(chk, fm, px, lx):
     """Expressions printed outside an expression (initialisers, default arguments, attribute arguments, array sizes,
     template arguments, enum values, statements): the parser reads each of these places under a terminator that
     switches some operators off (a comma ends an initialiser; > ends a template argument list). Every node kind that
     could show such an operator at its top level must come out of the printer in parentheses there."""
     f = chk.facts
-    excl = terminator_exclusions(px)
+    excl = terminator_exclusions(px, fm, lx)
     if excl is None:
-        chk.unreadable("C09.context/terminators", "the Terminator guards of the parser's operator tables", "a guard that is not `terminator != Terminator::V`", PAR)
+        chk.unreadable("C09.context/terminators", "the parser's operator tables under each Terminator", "an operator parser of the level chain is not readable", PAR)
         return
 
     def wrapper_terminator(path, depth=0):
@@ -985,6 +1007,149 @@ def rule_contexts(chk, fm, px):
                "(`int a = (x, y);` comes out as `int a = x, y;`)" % (ffn, what, ", ".join(bad[:4]) + ("…" if len(bad) > 4 else ""), what, ", ".join(sorted(off)), "/".join(sorted(terms))),
                where(fb, sites[0][0]), sample={"printer": ffn, "parser": pfns, "terminators": sorted(terms), "off": sorted(off), "sites": len(sites)})
     chk.floor("C09.floor/contexts", n_ctx, 7, "places outside an expression where printer and parser were paired")
+
+
+def rule_stmt_roundtrip(chk, prefix="C09.stmt"):
+    """Statements: format_statement is walked by the reader on model statement trees (every statement kind; all eight
+    shapes of a for header; labels, blocks and nested conditionals as the exporters and the parser build them), the text
+    is cut into tokens, and the parser's parse_statement is walked on those tokens: the tree that comes back must be the
+    tree that was printed. Expressions and variable definitions are opaque tags on both sides (they are the subject of
+    the expression rules); nothing is executed."""
+    import re
+    f = chk.facts
+    fs = f.fn("format_statement", FMT)
+    ps = f.fn("parse_statement", PAR)
+    if not fs or not ps:
+        chk.unreadable(prefix + "/readable", "format_statement / parse_statement", "function not found", FMT)
+        return
+    opt = lambda v: I.Enum("Option", "None") if v is None else I.Enum("Option", "Some", {"0": v})
+    ok = lambda v: I.Enum("Result", "Ok", {"0": v})
+    loc = lambda v: I.Enum("Located", None, {"node": v, "location": I.Opaque("location")})
+    E = lambda t: loc(I.Enum("Expression", "Tagged", {"tag": t}))
+    V = lambda t: I.Enum("VarDef", "Tagged", {"tag": t})
+
+    def S(kind, *a):
+        return I.Enum("Statement", None, {"kind": I.Enum("StatementKind", kind, {str(i): v for i, v in enumerate(a)}), "location": I.Opaque("location"), "attributes": []})
+    leaf = lambda t: S("Expression", E(t).fields["node"])
+    blk = lambda *ss: S("Block", list(ss))
+
+    def deref(v):
+        return v.get() if isinstance(v, I.Ref) else v
+
+    def emit(tag_of):
+        def fn(a):
+            e = deref(a[0])
+            if isinstance(e, I.Enum) and e.adt == "Located":
+                e = e.fields["node"]
+            a[1].set(a[1].get() + "\u00ab%s\u00bb" % tag_of(e))
+            return ok(())
+        return fn
+    fext = {"format_expression": emit(lambda e: e.fields["tag"]), "format_variable_definition": emit(lambda e: e.fields["tag"]), "format_attributes": lambda a: ok(())}
+    KW = {"if": "If", "else": "Else", "for": "For", "while": "While", "do": "Do", "switch": "Switch", "break": "Break", "continue": "Continue", "discard": "Discard",
+          "return": "Return", "case": "Case", "default": "Default"}
+    PU = {"(": "LeftParen", ")": "RightParen", ";": "Semicolon", ":": "Colon", "{": "LeftBrace", "}": "RightBrace"}
+    tk = lambda k, v=None: I.Enum("LexToken", None, {"0": I.Enum("Token", k, {} if v is None else {"0": v}), "1": I.Opaque("location")})
+
+    def lex(text):
+        toks, pos = [], 0
+        for m in re.finditer(r"\u00ab(\w+)\u00bb|(\w+)|([(){};:])|\s+", text):
+            if m.start() != pos:
+                return None
+            pos = m.end()
+            if m.group(1):
+                toks.append(tk("Id", I.Enum("Identifier", None, {"0": m.group(1)})))
+            elif m.group(2):
+                if m.group(2) not in KW:
+                    return None
+                toks.append(tk(KW[m.group(2)]))
+            elif m.group(3):
+                toks.append(tk(PU[m.group(3)]))
+        return toks + [tk("Eof")] if pos == len(text) else None
+
+    def fail(inp):
+        return I.Enum("Result", "Err", {"0": I.Enum("ParseErrorContext", None, {"0": inp, "1": len(inp), "2": I.Enum("ParseErrorReason", "WrongToken")})})
+
+    def consume(pred, build):
+        def fn(a):
+            inp = deref(a[0])
+            if inp and inp[0].fields["0"].variant == "Id" and pred(inp[0].fields["0"].fields["0"].fields["0"]):
+                return ok((list(inp[1:]), build(inp[0].fields["0"].fields["0"].fields["0"])))
+            return fail(inp)
+        return fn
+    pext = {"parse_expression": consume(lambda t: not t.startswith("v"), E), "parse_vardef": consume(lambda t: t.startswith("v"), V), "parse_attribute": lambda a: fail(deref(a[0]))}
+
+    def norm(v):
+        if isinstance(v, I.Enum):
+            if v.adt == "Located":
+                return norm(v.fields["node"])
+            return (v.adt, v.variant, tuple((k, norm(x)) for k, x in sorted(v.fields.items()) if k != "location"))
+        if isinstance(v, (list, tuple)):
+            return tuple(norm(x) for x in v)
+        return "opaque" if isinstance(v, I.Opaque) else v
+    init_e, init_v, init_0 = I.Enum("InitStatement", "Expression", {"0": E("i")}), I.Enum("InitStatement", "Declaration", {"0": V("vi")}), I.Enum("InitStatement", "Empty")
+    cases = {"Empty": [S("Empty")], "Expression": [leaf("e")], "Var": [S("Var", V("v"))],
+             "Block": [blk(), blk(leaf("x"), S("Empty"), S("Var", V("v")), blk(leaf("y")))],
+             "If": [S("If", E("c"), leaf("t")), S("If", E("c"), blk(leaf("t"))), S("If", E("c"), blk(S("If", E("d"), leaf("t")))), S("If", E("c"), S("IfElse", E("d"), leaf("t"), leaf("f")))],
+             "IfElse": [S("IfElse", E("c"), leaf("t"), leaf("f")), S("IfElse", E("c"), blk(S("If", E("d"), leaf("t"))), blk(leaf("f"))),
+                        S("IfElse", E("c"), blk(leaf("t")), S("IfElse", E("d"), blk(leaf("u")), blk(leaf("f")))), S("IfElse", E("c"), leaf("t"), S("If", E("d"), leaf("u")))],
+             "For": [S("For", i_, opt(E("c")) if c_ else opt(None), opt(E("n")) if n_ else opt(None), b_) for i_ in (init_0, init_e, init_v) for c_ in (0, 1) for n_ in (0, 1)
+                     for b_ in (leaf("b"),)] + [S("For", init_v, opt(E("c")), opt(E("n")), blk(leaf("b"), S("Continue")))],
+             "While": [S("While", E("c"), leaf("b")), S("While", E("c"), blk(leaf("b"), S("Break")))],
+             "DoWhile": [S("DoWhile", leaf("b"), E("c")), S("DoWhile", blk(leaf("b")), E("c")), S("DoWhile", blk(S("DoWhile", blk(leaf("b")), E("d"))), E("c"))],
+             "Switch": [S("Switch", E("c"), blk(S("CaseLabel", E("k"), leaf("x")), S("Break"), S("CaseLabel", E("j"), S("CaseLabel", E("m"), S("Empty"))), S("DefaultLabel", S("Break"))))],
+             "Break": [S("Break")], "Continue": [S("Continue")], "Discard": [S("Discard")], "Return": [S("Return", opt(E("r"))), S("Return", opt(None))],
+             "CaseLabel": [S("CaseLabel", E("k"), leaf("x")), S("CaseLabel", E("k"), S("Empty"))], "DefaultLabel": [S("DefaultLabel", leaf("x")), S("DefaultLabel", S("Empty"))]}
+    kinds = f.variants("ast_statements::StatementKind", "rssl_ast") or []
+    n = 0
+    for k in kinds:
+        if k == "AmbiguousDeclarationOrExpression":
+            continue        # not printable (the formatter refuses it: C09.total)
+        if k not in cases:
+            chk.unreadable("%s/%s" % (prefix, k), "statement kind %s" % k, "a statement kind the model has no case for", where(fs))
+            continue
+        bad = None
+        for st in cases[k]:
+            env = {"out": ""}
+            try:
+                r = I.Interp(f, max_depth=14, extern=fext).apply(fs, [st, I.Ref(env, "out"), I.Enum("FormatContext", None, {"indent": 0, "target": I.Enum("Target", "Hlsl")})])
+            except I.Unknown as e:
+                if "panicking" in str(e):
+                    bad = bad or "printing a %s statement aborts (%s)" % (k, str(e)[:80])
+                    continue
+                chk.unreadable("%s/%s" % (prefix, k), "format_statement on the statement model", str(e)[:100], where(fs))
+                bad = "unreadable"
+                break
+            if not (isinstance(r, I.Enum) and r.variant == "Ok"):
+                continue
+            text = env["out"]
+            flat = " ".join(text.split())
+            toks = lex(text)
+            if toks is None:
+                bad = bad or "a %s statement is printed as `%s`, which contains text that is neither a keyword, punctuation nor a printed part" % (k, flat)
+                continue
+            try:
+                r2 = I.Interp(f, max_depth=16, extern=pext).apply(ps, [toks])
+            except I.Unknown as e:
+                if "panicking" in str(e):
+                    bad = bad or "the text `%s` of a %s statement aborts the parser (%s)" % (flat, k, str(e)[:80])
+                    continue
+                chk.unreadable("%s/%s" % (prefix, k), "parse_statement on the printed tokens", str(e)[:100], where(ps))
+                bad = "unreadable"
+                break
+            n += 1
+            if not (isinstance(r2, I.Enum) and r2.variant == "Ok"):
+                bad = bad or "a %s statement is printed as `%s`, which the parser rejects" % (k, flat)
+                continue
+            rest, st2 = r2.fields["0"]
+            if len(rest) != 1:
+                bad = bad or "a %s statement is printed as `%s`; the parser reads only a prefix of it as a statement" % (k, flat)
+            elif norm(st2) != norm(st):
+                k2 = st2.fields["kind"].variant if isinstance(st2, I.Enum) and isinstance(st2.fields.get("kind"), I.Enum) else "?"
+                bad = bad or "a %s statement is printed as `%s`, which reads back as a different tree (a %s statement%s)" % (
+                    k, flat, k2, " whose parts moved" if k2 == k else "")
+        if bad != "unreadable":
+            chk.ob("%s/%s" % (prefix, k), bad is None, bad or "%d tree(s) print and read back unchanged" % len(cases[k]), where(fs), sample={"kind": k, "trees": len(cases[k])})
+    chk.floor(prefix.split(".")[0] + ".floor/statement-roundtrips", n, 40, "statement trees printed and read back", where(fs))
 
 
 def sim_parse_op(px, toks):
